@@ -233,6 +233,15 @@ CLAIMS['C31'] = dict(
     design='3/C31', note='Glob and canonicalisation semantics of PathMatch::match / Path::simplifyPath on arbitrary strings (\'*\', \'**\', \'?\', relative/absolute patterns, trailing separators), '
                          'de-duplication, and the Windows variant of the lister (not compiled on this platform) are not decided.')
 
+CLAIMS['C32'] = dict(
+    technique='static analysis: must-pass-through of the argument parser before every project entry is appended, sibling agreement of the two entry forms, option table verified '
+              'against the parser branches, must-analysis of the FileSettings -> Settings transfer before the per-file CppCheck is constructed',
+    text='Decides that the options of a compilation-database entry are carried to the analysis (necessary conditions): every FileSettings appended by importCompileCommands has passed '
+         'ImportProject::parseArgs, and the "arguments" form and the "command" form fill the same argument vector; for -I, -D, -U and -std the parser branch stores into a FileSettings member and '
+         'CppCheck::check(const FileSettings&) transfers that member into Settings::includePaths / userDefines / userUndefs / standards before every per-file CppCheck is built.',
+    design='3/C32', note='Shell unquoting of the command string, option spelling variants, relative-path resolution and the "no others" clause are input/output behaviour of a hand-written '
+                         'parser on arbitrary strings and are not decided.')
+
 # rules added while triaging seeded changes and replayed defects (see DESIGN.md 8.4/8.5); appended to the decided text of each claim
 EXTRA = {
     'C05': 'R05.2: token lists are rendered with line breaks / line numbers / file names only by the printers of the Token class. R05.3: a token line is compared with a '
@@ -291,7 +300,6 @@ NOT_APPLICABLE = {
     'C08': 'agreement with a reference compiler\'s name lookup over all programs (differential, not source analysis)',
     'C09': 'correctness of the conversion-rule computation over all operand type combinations is a function-correctness proof; the platform table it reads is decided under C10',
     'C11': 'output equivalence with a reference preprocessor over all sources',
-    'C32': 'input/output behaviour of a hand-written option parser on arbitrary command strings',
     'C33': 'equivalence of two matchers over all token sequences (program equivalence)',
     'C35': 'consistency with clang\'s resolution and crash-freedom on arbitrary AST dumps are value-dependent',
 }
